@@ -3854,8 +3854,14 @@ class ScoreVariant(object):
                     # add the start of the new object to the part
                     tp_new.add_starting_object(o_copy)
                     if o.end is not None:
-                        # add the end of the object to the part
-                        tp_end = part.get_or_add_point(o.end.t + delta)
+                        # add the end of the object to the part; an object
+                        # that continues after the end of its segment (e.g.
+                        # a slur into a section that this variant does not
+                        # play next) must not extend beyond the end of the
+                        # unfolded part
+                        tp_end = part.get_or_add_point(
+                            min(o.end.t + delta, self.t_unfold)
+                        )
                         tp_end.add_ending_object(o_copy)
 
                 tp = tp.next
